@@ -199,9 +199,30 @@ def jobs(tier, seed):
             for i in range(16)]
 
 
+def scripted_cases():
+    """ Hand-written cases that every run evaluates in-process and in the three fresh interpreters: three
+    instruments sharing one deck at different heights, one of them excluded, look-back below 100 (anything that
+    orders instruments through a hash-ordered container shows up as a digest difference between hash seeds). """
+    out = []
+    for names in (['A', 'B', 'C'], ['zulu', 'alpha', 'mike', 'x1']):
+        rows = []
+        for i in range(16):
+            for k, nm in enumerate(names):
+                rows.append([nm, -900.0 + 55.0 * i + k, 1000.0 + 37.0 * k + (i * 7) % 23, 1])
+        for lb in (50, 30):
+            out.append({'cls': 'scripted', 'rows': rows, 'rng': [7, 2, 1], 'history': ['draw'],
+                        'other_rows': rows[:6], 'alt_prms': {'LOWESS': {'frac': 0.8}},
+                        'prms': {'EXCLUDE_FOR_BASE_HEIGHT_CALC': [names[0]], 'BASE_LVL_LOOKBACK_PERC': lb,
+                                 'BASE_LVL_HEIGHT_PERC': 50}})
+    return out
+
+
 def run_job(job, ctx):
     mod = sys.modules[__name__]
     del _COLLECT[:]
+    if job['name'] == 'batch-0':
+        for case in scripted_cases():
+            ctx.record(case, check(case))
     runner.hyp_explore(mod, ctx, strategy(job['tier']), job['n'], job['seed'])
     done = [(c, d) for c, d in _COLLECT]
     if not done:
